@@ -716,7 +716,7 @@ impl Gen {
             let l = 1 + self.rng.usize_below(10);
             let mut s = String::new();
             for _ in 0..l {
-                s.push(*self.rng.pick(&['é', 'É', 'ß', 'я', 'Я', '漢', 'a', '.', 'ǆ', 'ǅ']));
+                s.push(*self.rng.pick(&['é', 'É', 'ß', 'я', 'Я', '漢', 'a', '.', 'ǆ', 'ǅ', 'ａ', 'Ⅷ', 'ⓐ']));
             }
             s
         } else if r < 90 && !self.stream_names.is_empty() {
